@@ -18,7 +18,7 @@ for d in sorted((V / 'seeded').iterdir()):
                 caught.append(f"{r['property']} ({'input' if r['with_input'] else 'no-failing-input-found'}; {'; '.join(kinds)[:110]})")
         meta['caught_by'] = caught or 'NOT CAUGHT by ' + ', '.join(r['property'] for r in res['runs'])
         meta['ran'] = (f"tools/seeded_run.py {'--suite ' if 'suite' in res else ''}{d.name} at /repo {res['head']}: demo with change rc={res.get('demo_with_change_rc')}, "
-                       f"unchanged rc={res.get('demo_unchanged_rc')}, suite {res.get('suite', {}).get('out', ['not run'])[-1] if res.get('suite') else 'not run'}; "
+                       f"unchanged rc={res.get('demo_unchanged_rc')}, suite {(res['suite'].get('out') or ['no output'])[-1] if res.get('suite') else 'not run'}; "
                        + '; '.join(f"./check {r['property']} quick -> rc {r['rc']}" for r in res['runs']))
         (d / 'meta.json').write_text(json.dumps(meta, indent=1))
     needs = meta.get('needs', '')
